@@ -255,9 +255,12 @@ func (b *RaftBackend) newTransaction(ctx context.Context, writable bool) (*RaftT
 			b.fsm.fastTxnTracker.completeTransaction(startIndex)
 			lowestActiveIndex := b.fsm.fastTxnTracker.lowestActiveIndex()
 
-			b.l.RLock()
-			lowestActiveIndex = min(lowestActiveIndex, b.raft.AppliedIndex()) // we need to cap the lowest active index, otherwise we might miss transaction started later
-			b.l.RUnlock()
+			// We need to cap the lowest active index, otherwise we might
+			// miss transactions started later. Transactions start at the
+			// index the FSM has applied, which can be behind
+			// raft.AppliedIndex(), so that is what we cap with.
+			latestApplied, _ := b.fsm.LatestState()
+			lowestActiveIndex = min(lowestActiveIndex, latestApplied.Index)
 
 			b.fsm.fastTxnTracker.clearOldEntries(lowestActiveIndex)
 		}
@@ -806,9 +809,12 @@ func (t *RaftTransaction) Rollback(ctx context.Context) error {
 			t.b.fsm.fastTxnTracker.completeTransaction(t.index)
 			lowestActiveIndex := t.b.fsm.fastTxnTracker.lowestActiveIndex()
 
-			t.b.l.RLock()
-			lowestActiveIndex = min(lowestActiveIndex, t.b.raft.AppliedIndex()) // we need to cap the lowest active index, otherwise we might miss transaction started later
-			t.b.l.RUnlock()
+			// We need to cap the lowest active index, otherwise we might
+			// miss transactions started later. Transactions start at the
+			// index the FSM has applied, which can be behind
+			// raft.AppliedIndex(), so that is what we cap with.
+			latestApplied, _ := t.b.fsm.LatestState()
+			lowestActiveIndex = min(lowestActiveIndex, latestApplied.Index)
 
 			t.b.fsm.fastTxnTracker.clearOldEntries(lowestActiveIndex)
 		}
